@@ -15,8 +15,10 @@ from pqv.props.c11 import build_native, native_run, qi
 
 THEOREMS = ["Pq.C04.binomialCoeff_eq_choose", "Pq.C04.binomUpdate_exact", "Pq.C04.runJob_eq_sum",
             "Pq.C04.permanent_one_thread_sum", "Pq.C04.permanent_threads_independent", "Pq.C04.wrap32_of_small",
-            "Pq.C04.int32_overflow_witness", "Pq.C04.permanent_eq_permSpec", "Pq.C04.permanent_none_of_ne"]
-FILES = ["PqVerif/Model/Kernel.lean", "PqVerif/Lemmas/GrayLaws.lean", "PqVerif/Lemmas/PermLaws.lean", "PqVerif/Lemmas/Glynn.lean", "PqVerif/Lemmas/PermSpec.lean", "PqVerif/Props/C04.lean"]
+            "Pq.C04.int32_overflow_witness", "Pq.C04.permanent_eq_permSpec", "Pq.C04.permanent_none_of_ne",
+            "Pq.C04.match_edges_cover", "Pq.C04.match_edges_cover_odd", "Pq.C04.match_round_decreases", "Pq.C04.match_single_vertex",
+            "Pq.C04.kept_edges_bounded", "Pq.C04.kept_edges_injective", "Pq.C04.kept_edges_complement", "Pq.C04.pattern_weights_total"]
+FILES = ["PqVerif/Model/Kernel.lean", "PqVerif/Lemmas/GrayLaws.lean", "PqVerif/Lemmas/PermLaws.lean", "PqVerif/Lemmas/Glynn.lean", "PqVerif/Lemmas/PermSpec.lean", "PqVerif/Model/HafEdges.lean", "PqVerif/Lemmas/HafEdgesLaws.lean", "PqVerif/Props/C04.lean"]
 
 
 # ------------------------------------------------------------------ exact definitions
@@ -454,6 +456,97 @@ def sanitizer(ctx, fails):
             fails.append((key, f"sanitizer report on `{l[:40]}`: {first[:200]}", {"line": l, "report": first}))
 
 
+def haf_edges(ctx, quick, fails, mism):
+    """repeated-edge compression of the power-trace hafnian: every run of the REAL match_occupation_numbers must be an
+    admissible run of the relational model (Model/HafEdges.replay; the theorems then give coverage and termination),
+    get_kept_edges must equal the model digit by digit, and the hafnian re-assembled from the MODEL's sign patterns
+    (delta, sign, weight, half range) with the real numerical pieces must equal the real hafnian_with_reduction."""
+    import numpy as np
+    from piquasso._math.hafnian.utils import match_occupation_numbers, get_kept_edges, ix_
+    from piquasso._math.hafnian import plain_hafnian as ph
+    from piquasso._math.hafnian.powtrace import calc_power_traces
+    rng = np.random.default_rng(ctx.seed + 404)
+    top = 4 if quick else 6
+    vecs = [list(v) for n in (1, 2, 3, 4) for v in itertools.product(range(top + 1), repeat=n) if sum(v) >= 2 or n == 1]
+    vecs += [[17, 3], [40], [9, 9, 9], [1] * 8, [2] * 6, [12, 5, 0, 1], [0, 0, 6], [31, 30]]
+    vecs += [list(rng.integers(0, 9, size=int(rng.integers(2, 7)))) for _ in range(40 if quick else 400)]
+    lines, recs = [], []
+    for v in vecs:
+        reps, idx = match_occupation_numbers(np.array(v, dtype=np.int64))
+        reps, idx = [int(x) for x in reps], [int(x) for x in idx]
+        lines.append(f"hafmatch {fl(v)} {fl(reps)} {fl(idx[0::2])} {fl(idx[1::2])}")
+        recs.append((v, reps, idx))
+    outs = ctx.lean_run(lines)
+    klines, krecs = [], []
+    for (v, reps, idx), l, o in zip(recs, lines, outs):
+        ctx.count(("hafmatch", tuple(v)), nontrivial=max(v) >= 2 and len(v) >= 2)
+        good = o.startswith("ok")
+        if good and sum(v) % 2 == 0 and len(v) > 1:
+            good = o.split("deg=")[1] == fl(v)
+        if not good:
+            mism.append((l, f"real run of match_occupation_numbers is not an admissible run of the model: {o}", ""))
+            # the property itself: do the edge classes reproduce the occupation numbers?
+            deg = [0] * len(v)
+            for r, a, b in zip(reps, idx[0::2], idx[1::2]):
+                deg[a] += r; deg[b] += r
+            if sum(v) % 2 == 0 and deg != list(v):
+                fails.append((f"hafedges:{v}", f"match_occupation_numbers({v}) -> reps {reps}, edges {idx}: vertex degrees {deg} != occupation numbers", dict(nvec=v)))
+        if reps and np.prod([r + 1 for r in reps]) <= 400:
+            P = int(np.prod([r + 1 for r in reps]))
+            for i in sorted(set(list(range(min(P, 12))) + [P - 1, P // 2] + [int(x) for x in rng.integers(0, P, size=4)])):
+                klines.append(f"hafkept {fl(reps)} {i}")
+                krecs.append((reps, i, [int(x) for x in get_kept_edges(np.array(reps, dtype=np.int64), i)]))
+    kouts = ctx.lean_run(klines) if klines else []
+    for (reps, i, real), l, o in zip(krecs, klines, kouts):
+        ctx.count(("hafkept", tuple(reps), i), nontrivial=max(reps) >= 2)
+        if o != fl(real):
+            mism.append((l, f"get_kept_edges real {real} != model {o}", ""))
+            if any(k > r for k, r in zip(real, reps)):
+                fails.append((f"hafkept:{reps}:{i}", f"get_kept_edges({reps}, {i}) = {real} keeps more edges than exist", dict(reps=reps, index=i)))
+    # hafnian re-assembled from the model's patterns
+    plines, precs = [], []
+    for _ in range(12 if quick else 120):
+        n = int(rng.integers(2, 5))
+        occ = [int(x) for x in rng.integers(0, 4, size=n)]
+        if sum(occ) % 2 or sum(occ) == 0:
+            occ[0] += 1
+        if sum(occ) % 2:
+            continue
+        A = rng.normal(size=(n, n)) + 1j * rng.normal(size=(n, n)); A = A + A.T
+        reps, idx = match_occupation_numbers(np.array(occ, dtype=np.int64))
+        P = int(np.prod(reps + 1))
+        precs.append((occ, A, reps, idx, P, len(plines)))
+        plines += [f"hafpattern {fl([int(r) for r in reps])} {i}" for i in range(P // 2)]
+    pouts = ctx.lean_run(plines) if plines else []
+    for occ, A, reps, idx, P, off in precs:
+        real = complex(ph.hafnian_with_reduction(A.copy(), np.array(occ, dtype=np.int64)))
+        M = ix_(A, idx, idx)
+        m2 = int(np.sum(reps))
+        sc = 1.0
+        if M.shape[0] > 10:
+            sc = np.sum(np.abs(M)) / M.shape[0] ** 2 / np.sqrt(2.0); M = M / sc
+        tot = 0j
+        for i in range(P // 2):
+            d, sg, w, _ = pouts[off + i].split()
+            delta = np.array([int(x) for x in d.split(",")], dtype=reps.dtype)
+            red, s2 = ph._scale_matrix(ph._calc_reduced_matrix(M, delta))
+            tr = calc_power_traces(red, m2)
+            tot += (-1 if sg == "1" else 1) * int(w) * ph._calc_f(tr, s2)[m2]
+        tot = tot * sc ** m2 / (1 << (m2 - 1))
+        ctx.count(("hafpattern", tuple(occ)), nontrivial=max(occ) >= 2)
+        ref = haf_def(*[x for x in [expand(A.tolist(), occ)[0]]])
+        tol = 1e-9 * (1 + abs(ref))
+        if abs(tot - real) > tol:
+            mism.append((f"hafpattern occ={occ}", f"hafnian re-assembled from the model's sign patterns {tot} != hafnian_with_reduction {real}", ""))
+        if abs(real - ref) > 1e-7 * (1 + abs(ref)):
+            fails.append((f"hafred:{occ}", f"hafnian_with_reduction(occ={occ}) = {real}, defining sum over perfect matchings = {ref}", dict(occ=occ, A=[[str(z) for z in r] for r in A.tolist()])))
+
+
+def fl(v):
+    v = [int(x) for x in v]
+    return ",".join(map(str, v)) if v else "-"
+
+
 def run(ctx):
     quick = ctx.tier == "quick"
     n_perm, n_other = (60, 25) if quick else (1500, 600)
@@ -472,9 +565,15 @@ def run(ctx):
         permanents(ctx, binary, n_perm, fails, mism)
         others(ctx, binary, n_other, fails)
     jax_perm(ctx, 10 if quick else 200, fails)
+    hmism = []
+    haf_edges(ctx, quick, fails, hmism)
+    ctx.notes["hafedges_mismatches"] = len(hmism)
+    if hmism:
+        ctx.notes["first_hafedges_mismatches"] = [dict(op=m[0][:200], what=m[1][:300]) for m in hmism[:5]]
+        ctx.broken.append("correspondence:Model/HafEdges (match_occupation_numbers / get_kept_edges / sign patterns) vs real code")
     if not quick:
         sanitizer(ctx, fails)
-    ctx.notes["correspondence_mismatches"] = len(mism)
+    ctx.notes["correspondence_mismatches"] = len(mism) + len(hmism)
     seen = set()
     for key, msg, inp in fails:
         if key not in seen:
